@@ -184,4 +184,83 @@ theorem srcAt_self {α} (sR : List Nat) (data : List α) (d : α) (fl : Nat) (h 
     srcAt { shape := sR.reverse, data := data } d sR fl = data.getD fl d := by
   simp only [srcAt, List.reverse_reverse, bIdxR_unravelR_self, ravelR_unravelR _ _ h]
 
+/-! ## phase 3: broadcast reads stay in range (no default value is ever used for well-formed tensors) -/
+
+theorem bIdxR_nil_left (i : List Nat) : bIdxR [] i = [] := by cases i <;> rfl
+
+theorem bShapeR_nil_right (s : List Nat) : bShapeR s [] = some s := by
+  cases s <;> rfl
+
+/-- the index a broadcast operand is read at is in range for that operand -/
+theorem bIdxR_inRange (a b c i : List Nat) (h : bShapeR a b = some c) (hi : inRangeR c i) :
+    inRangeR a (bIdxR a i) := by
+  induction a generalizing b c i with
+  | nil => simp [bIdxR_nil_left, inRangeR]
+  | cons x s ih =>
+    cases b with
+    | nil =>
+      simp only [bShapeR, Option.some.injEq] at h; subst h
+      cases i with
+      | nil => simp [inRangeR] at hi
+      | cons j is =>
+        obtain ⟨hj, hr⟩ := hi
+        simp only [bIdxR, inRangeR]
+        refine ⟨?_, ih [] s is (bShapeR_nil_right s) hr⟩
+        split <;> omega
+    | cons y t =>
+      simp only [bShapeR] at h
+      split at h
+      · rename_i hxy
+        cases hst : bShapeR s t with
+        | none => simp [hst] at h
+        | some c' =>
+          simp [hst] at h; subst h
+          cases i with
+          | nil => simp [inRangeR] at hi
+          | cons j is =>
+            obtain ⟨hj, hr⟩ := hi
+            simp only [bIdxR, inRangeR]
+            refine ⟨?_, ih t c' is hst hr⟩
+            split <;> omega
+      · split at h
+        · rename_i hx1
+          cases hst : bShapeR s t with
+          | none => simp [hst] at h
+          | some c' =>
+            simp [hst] at h; subst h
+            cases i with
+            | nil => simp [inRangeR] at hi
+            | cons j is =>
+              obtain ⟨hj, hr⟩ := hi
+              simp only [bIdxR, inRangeR]
+              refine ⟨?_, ih t c' is hst hr⟩
+              simp [hx1]
+        · simp at h
+
+/-- … hence the flat offset read from a well-formed operand is below its element count -/
+theorem srcAt_index_lt (mR kR sR : List Nat) (h : outShapeR mR kR = some sR) (fl : Nat) (hfl : fl < prodR sR) :
+    ravelR mR (bIdxR mR (unravelR sR fl)) < prodR mR := by
+  unfold outShapeR at h
+  cases hb : bShapeR mR kR with
+  | none => simp [hb] at h
+  | some r =>
+    cases r with
+    | nil =>
+      obtain ⟨hm, _⟩ := bShapeR_nil _ _ hb
+      subst hm
+      simp [ravelR, prodR]
+    | cons r0 rs =>
+      simp [hb] at h; subst h
+      exact ravelR_lt _ _ (bIdxR_inRange _ _ _ _ hb (unravelR_inRange _ _ hfl))
+
+/-- reading a tensor whose data were mapped through `g`: the mapped entry (defaults play no role) -/
+theorem srcAt_map {α β} (g : α → β) (shape : List Nat) (data : List α) (d : α) (d' : β) (kR sR : List Nat)
+    (hwf : data.length = prodR shape.reverse) (h : outShapeR shape.reverse kR = some sR) (fl : Nat)
+    (hfl : fl < prodR sR) :
+    srcAt { shape := shape, data := data.map g } d' sR fl = g (srcAt { shape := shape, data := data } d sR fl) := by
+  have hlt := srcAt_index_lt _ _ _ h fl hfl
+  rw [← hwf] at hlt
+  simp only [srcAt, List.getD_eq_getElem?_getD, List.getElem?_map, List.getElem?_eq_getElem hlt, Option.map_some,
+    Option.getD_some]
+
 end DirectVerif.Mask
